@@ -372,6 +372,7 @@ def evaluate(spec):
                         has = any(e.label and e.label.type == ET.Return and e.target is built.blocks[site] for e in blk.outgoing_edges)
                         # another call into the same function with the same return site keeps the edge legitimately
                         others = any(bb.code and bb.units[-1].kind == "call" and bb is not b and bb.units[-1].sym in case.label_block
+                                     and mapping.get(bb.units[-1].sym, bb.units[-1].sym) in case.label_block
                                      and case.blocks[case.label_block[mapping.get(bb.units[-1].sym, bb.units[-1].sym)][0]].func == f_
                                      and Lm._next_code_block(case, bb.gidx) == site for bb in case.blocks)
                         if should and not has:
